@@ -39,6 +39,9 @@ SECOND = [("collections", "OrderedDict"), ("verif_sink", "other"), ("builtins", 
           ("collections", "deque"), ("datetime", "date")]
 
 
+SHADOWMODS = ["collections", "importlib", "gzip", "datetime", "functools", "string"]
+
+
 def generate(ctx, profile, maxlen, *, simulate=None, depth=None, minstop=0, maxdepth=8, require=()):
     cfg = GEN_CFG.replace("@MAXLEN@", str(maxlen)).replace("@MINSTOP@", str(minstop)).replace("@MAXDEPTH@", str(maxdepth))
     if simulate:   # walks: keep the cheap invariants only (all successors of every visited state are checked)
@@ -70,7 +73,7 @@ def instantiate(prog, v1, v2, rng, variants=True):
             if op["m"] == "M1":
                 op["m"], op["n"] = v1[0], v1[1]
             elif op["m"] == "M2":
-                op["m"], op["n"] = v2[0], v2[1]
+                op["m"], op["n"] = v2[0], (v1[1] if op["n"] == "N1" else v2[1])
         elif op["o"] == "CONST" and op["ty"] == "str" and op["s"] in ("M1", "N1", "M2"):
             val = v1[0] if op["s"] == "M1" else (v1[1] if op["s"] == "N1" else v2[0])
             op.update({"v": f"str:'{val}'", "h": f"s:'{val}'", "s": val})
@@ -89,13 +92,17 @@ def build_items(ctx, plan, per_shape=1, natural=0):
     items = []
     vi = ctx.rng.randrange(len(VOCAB))
     for g in plan:
+        g = dict(g)
+        shadow = g.pop("shadow", False)
         progs = generate(ctx, **g)
+        if shadow:      # both same-named globals must occur
+            progs = [p for p in progs if {"M1", "M2"} <= {o.get("m") for o in p}]
         tag = g["profile"]
         for prog in progs:
             n = per_shape if uses_symbols(prog) else 1
             for _ in range(n):
                 v1 = VOCAB[vi % len(VOCAB)]
-                v2 = SECOND[vi % len(SECOND)]
+                v2 = SECOND[vi % len(SECOND)] if not shadow else (SHADOWMODS[vi % len(SHADOWMODS)], "x")
                 vi += 1
                 ops, var = instantiate(prog, v1, v2, ctx.rng)
                 items.append({"id": len(items), "prog": ops, "variants": var, "tag": tag})
@@ -142,12 +149,14 @@ PLANS = {
                         dict(profile="sharing", maxlen=5), dict(profile="headers", maxlen=5), dict(profile="objcont", maxlen=5),
                         dict(profile="memoglobal", maxlen=8, maxdepth=4, require=("STACK_GLOBAL", "MEMOIZE", "PUT", "GET")),
                         dict(profile="memoslots", maxlen=7, maxdepth=4, require=("MEMOIZE", "PUT", "GET")),
+                        dict(profile="shadow", maxlen=6, maxdepth=5, shadow=True),
                         dict(profile="mixed", maxlen=14, simulate=120, depth=14, minstop=7, maxdepth=6)],
                   per_shape=1, natural=400),
     "thorough": dict(plan=[dict(profile="calls", maxlen=6), dict(profile="data", maxlen=6),
                            dict(profile="sharing", maxlen=6), dict(profile="headers", maxlen=6), dict(profile="objcont", maxlen=6),
                            dict(profile="memoglobal", maxlen=9, maxdepth=4, require=("STACK_GLOBAL", "MEMOIZE", "PUT", "GET")),
                            dict(profile="memoslots", maxlen=8, maxdepth=4, require=("MEMOIZE", "PUT", "GET")),
+                           dict(profile="shadow", maxlen=7, maxdepth=5, shadow=True),
                            dict(profile="mixed", maxlen=30, simulate=6000, depth=30, minstop=10, maxdepth=8)],
                      per_shape=2, natural=6000),
 }
